@@ -249,6 +249,9 @@ pub struct C16State {
     pub reopened: u64,
     pub closed: BTreeMap<(Pubkey, Pubkey), bool>,
     pub transferred: BTreeMap<Pubkey, Pubkey>,
+    /// positions opened, by asset tag
+    pub opened_by_tag: BTreeMap<u8, u64>,
+    pub max_integration_positions: usize,
 }
 
 pub fn is_integration_tag(t: u8) -> bool {
@@ -313,13 +316,18 @@ pub fn c16_step(st: &mut C16State, pre: &StoreSnap, post: &StoreSnap, step: &Ste
                 out.push(finding("structure:tag-mix", format!("op#{} {}: account {ak} mixes staked and default-class positions", step.index, step.op.name())));
             }
             let n_int = a.positions.iter().filter(|p| is_integration_tag(p.tag)).count();
+            st.max_integration_positions = st.max_integration_positions.max(n_int);
             if n_int > 8 {
                 out.push(finding("structure:integration-count", format!("account {ak} holds {n_int} integration positions")));
             }
             for p in &a.positions {
                 let key = (*ak, p.bank);
                 let was_open = pre.accts.get(ak).map(|pa| pa.positions.iter().any(|q| q.bank == p.bank)).unwrap_or(false);
-                if !was_open {
+                let moved_by_transfer = matches!(step.op, Op::Transfer { .. }) && step.other_macct == Some(*ak);
+                if !was_open && moved_by_transfer {
+                    // a transfer moves positions as they are, with the tags they were opened with
+                    st.tags.insert(key, p.tag);
+                } else if !was_open {
                     if st.closed.remove(&key).is_some() {
                         st.reopened += 1;
                     }
@@ -330,6 +338,7 @@ pub fn c16_step(st: &mut C16State, pre: &StoreSnap, post: &StoreSnap, step: &Ste
                         }
                     }
                     st.tags.insert(key, p.tag);
+                    *st.opened_by_tag.entry(p.tag).or_insert(0) += 1;
                 } else if let Some(t) = st.tags.get(&key) {
                     if *t != p.tag {
                         out.push(finding("structure:tag-changed", format!("op#{} {}: account {ak} bank {} tag changed {} -> {}", step.index, step.op.name(), p.bank, t, p.tag)));
